@@ -19,6 +19,8 @@
 // DEALINGS IN THE SOFTWARE.
 
 mod peers;
+#[cfg(libp2p_verif)]
+pub use peers::verif_c39;
 
 use std::{num::NonZeroUsize, time::Duration};
 
